@@ -257,13 +257,14 @@ theorem receive_ok_full {s s' : State} {caller sender : Addr} {id : Nat} {rcp : 
       obtain ⟨s2, hmint, hb⟩ := runMsgs_ok h
       obtain ⟨hc, hcan, _⟩ := srcBurn_ok hb
       rw [hburn] at hc hcan
-      have hs2 : s2.colls = s.colls ∧ s2.self = s.self ∧ s2.srcOwner = s.srcOwner ∧ s2.srcApproved = s.srcApproved := by
+      have hs2 : s2.colls = s.colls ∧ s2.self = s.self ∧ s2.srcOwner = s.srcOwner ∧ s2.srcApproved = s.srcApproved ∧
+          s2.now = s.now ∧ s2.srcOperators = s.srcOperators := by
         rcases hmint with ⟨_, rfl⟩ | ⟨i, o, _, hm⟩
         · rcases hcase with ⟨_, _, _, _, hst⟩ | ⟨_, _, hst⟩ <;> simp [hst]
         · obtain ⟨_, rfl⟩ := tgtMint_ok hm
           rcases hcase with ⟨_, _, _, _, hst⟩ | ⟨_, _, hst⟩ <;> simp [hst]
       refine ⟨hstart, by simpa [hs2.1] using hc, hlim, ⟨amt, hreq, hled⟩, ?_⟩
-      simpa [canSend, hs2.2.1, hs2.2.2.1, hs2.2.2.2] using hcan
+      simpa [canSend, hs2.2.1, hs2.2.2.1, hs2.2.2.2.1, hs2.2.2.2.2.1, hs2.2.2.2.2.2] using hcan
 
 /-! ## C17: the clauses -/
 
@@ -381,13 +382,19 @@ theorem C17_burn_each_send {s s' : State} {caller coll : Addr} {id : Nat} {contr
 /-! ### rejections: each one fails the whole transaction, which therefore changes nothing -/
 
 /-- a failed operation changes nothing — in particular the token of a rejected deposit stays with its owner and no
-ledger entry moves (CosmWasm reverts the enclosing `SendNft` together with the failed hook) -/
+ledger entry moves (CosmWasm reverts the enclosing `SendNft` together with the failed hook). NOTE: this merely unfolds
+the definition of `step'`; transaction atomicity is a TRUSTED fact about CosmWasm, validated on the real `App` by the
+harness monitor `rejected-deposit-changed-state` after every rejected deposit — not something proved here. -/
 theorem C17_rejected_unchanged {s : State} {op : Op} {e : Err} (h : step s op = .error e) : step' s op = s := by
   simp [step', h]
 
 /-- *"a user calling the receive hook directly is rejected"*: whoever signs a transaction that calls `ReceiveNft` on
 the minter is an account, not one of the collection contracts — and is rejected, whatever `sender`, token id and
-recipient it claims; even when the account's address was (mis)configured as a "required collection". -/
+recipient it claims; even when the account's address was (mis)configured as a "required collection".
+NOTE: the hypothesis `caller ∉ s.colls` is an ENVIRONMENT fact of the model (which addresses are cw721 contracts), not
+mechanism state; for a caller outside the requirement vector the mechanism alone rejects
+(`C17_direct_receive_rejected_unrequired`); for the mis-configured account the rejection comes from the `Burn` message
+that cannot be executed by an account — validated by the harness (`weird5/6`, `stuck*` cases), trusted in the proof. -/
 theorem C17_direct_receive_rejected {s : State} {caller sender : Addr} {id : Nat} {rcp : Option Addr} {msgOk : Bool}
     {picked : Option Nat} (huser : caller ∉ s.colls) :
     ∃ e, step s (.receive caller sender id rcp msgOk picked) = .error e := by
@@ -520,7 +527,22 @@ theorem step_ledger_cases {s s' : State} {op : Op} (h : step s op = .ok s') :
     simp only [step] at h
     obtain ⟨_, _, rfl⟩ := srcTransfer_ok h
     exact ⟨rfl, Or.inl rfl⟩
-  | approve caller coll id spender =>
+  | approve caller coll id spender expires =>
+    simp only [step] at h
+    split at h
+    · cases h; exact ⟨rfl, Or.inl rfl⟩
+    · cases h
+  | revoke caller coll id spender =>
+    simp only [step] at h
+    split at h
+    · cases h; exact ⟨rfl, Or.inl rfl⟩
+    · cases h
+  | approveAll caller coll operator expires =>
+    simp only [step] at h
+    split at h
+    · cases h; exact ⟨rfl, Or.inl rfl⟩
+    · cases h
+  | revokeAll caller coll operator =>
     simp only [step] at h
     split at h
     · cases h; exact ⟨rfl, Or.inl rfl⟩
@@ -572,7 +594,7 @@ theorem step_ledger_cases {s s' : State} {op : Op} (h : step s op = .ok s') :
         refine ⟨?_, Or.inr ⟨s, caller, sender, id, rcp, picked, res, rfl, rfl, hr, ?_⟩⟩
         · simp [hs2.1, hres]
         · simp [hs2.2]
-  | mintTo caller recipient pay picked =>
+  | mintTo caller recipient pay w picked =>
     simp only [step, adminMint] at h
     split at h
     · cases h
@@ -581,7 +603,7 @@ theorem step_ledger_cases {s s' : State} {op : Op} (h : step s op = .ok s') :
       · split at h
         · cases h
         · obtain ⟨_, rfl⟩ := tgtMint_ok h; exact ⟨rfl, Or.inl rfl⟩
-  | mintFor caller id recipient pay =>
+  | mintFor caller id recipient pay w =>
     simp only [step, adminMint] at h
     split at h
     · cases h
@@ -590,22 +612,27 @@ theorem step_ledger_cases {s s' : State} {op : Op} (h : step s op = .ok s') :
       · split at h
         · cases h
         · obtain ⟨_, rfl⟩ := tgtMint_ok h; exact ⟨rfl, Or.inl rfl⟩
-  | setStart caller t =>
+  | setStart caller t w =>
     simp only [step] at h
     repeat' split at h
     all_goals first | cases h | skip
     all_goals first | exact ⟨rfl, Or.inl rfl⟩ | skip
-  | setLimit caller n =>
+  | setLimit caller n w =>
     simp only [step] at h
     repeat' split at h
     all_goals first | cases h | skip
     all_goals first | exact ⟨rfl, Or.inl rfl⟩ | skip
-  | purge caller =>
+  | purge caller w =>
     simp only [step] at h
-    split at h
-    · cases h; exact ⟨rfl, Or.inl rfl⟩
-    · cases h
-  | burnRemaining caller =>
+    repeat' split at h
+    all_goals first | cases h | skip
+    all_goals first | exact ⟨rfl, Or.inl rfl⟩ | skip
+  | burnRemaining caller w =>
+    simp only [step] at h
+    repeat' split at h
+    all_goals first | cases h | skip
+    all_goals first | exact ⟨rfl, Or.inl rfl⟩ | skip
+  | noise w =>
     simp only [step] at h
     repeat' split at h
     all_goals first | cases h | skip
@@ -671,9 +698,11 @@ theorem C17_ledger_only_required (s0 : State) (h0 : LedgerBounded s0) (ops : Lis
   rw [(requiredOf_none_iff _ _).mpr hforeign] at this
   simpa using this
 
-/-- *"the recipient's deposit ledger is reset after each mint"* — in every reachable state: when a deposit mints,
-the recipient's whole ledger row is zero afterwards (entries of required collections are removed by the mint,
-entries of other collections never exist). -/
+/-- *"the recipient's deposit ledger is reset after each mint"* — for DEPOSIT-TRIGGERED mints, in every reachable state:
+when a deposit mints, the recipient's whole ledger row is zero afterwards (entries of required collections are removed
+by the mint, entries of other collections never exist). The admin's airdrops (`MintTo` / `MintFor`) are mints too and by
+design do NOT reset anything (`C17_admin_mint_frame`, `C17_reset_after_each_mint_counterexample`): "each mint" in the
+text is therefore only proved — and only true of the code — for mints caused by deposits. -/
 theorem C17_reset (s0 : State) (h0 : LedgerBounded s0) (ops : List Op) {s' : State} {caller coll : Addr} {id : Nat}
     {contract : Addr} {rcp : Option Addr} {msgOk : Bool} {picked : Option Nat}
     (h : step (run s0 ops) (.send caller coll id contract rcp msgOk picked) = .ok s')
@@ -777,8 +806,8 @@ theorem C17_mint_only_via_deposit_or_admin {s s' : State} {op : Op} (h : step s 
     (∃ caller coll id contract rcp msgOk picked, op = .send caller coll id contract rcp msgOk picked ∧
         Fulfilled s (rcp.getD caller) coll) ∨
     (∃ caller sender id rcp msgOk picked, op = .receive caller sender id rcp msgOk picked ∧ caller ∈ s.colls) ∨
-    (∃ recipient pay picked, op = .mintTo s.admin recipient pay picked) ∨
-    (∃ id recipient pay, op = .mintFor s.admin id recipient pay) := by
+    (∃ recipient pay picked, op = .mintTo s.admin recipient pay true picked) ∨
+    (∃ id recipient pay, op = .mintFor s.admin id recipient pay true) := by
   cases op with
   | setTime t => simp only [step] at h; cases h; simp at hchg
   | give coll id to =>
@@ -790,7 +819,22 @@ theorem C17_mint_only_via_deposit_or_admin {s s' : State} {op : Op} (h : step s 
     simp only [step] at h
     obtain ⟨_, _, rfl⟩ := srcTransfer_ok h
     simp at hchg
-  | approve caller coll id spender =>
+  | approve caller coll id spender expires =>
+    simp only [step] at h
+    split at h
+    · cases h; simp at hchg
+    · cases h
+  | revoke caller coll id spender =>
+    simp only [step] at h
+    split at h
+    · cases h; simp at hchg
+    · cases h
+  | approveAll caller coll operator expires =>
+    simp only [step] at h
+    split at h
+    · cases h; simp at hchg
+    · cases h
+  | revokeAll caller coll operator =>
     simp only [step] at h
     split at h
     · cases h; simp at hchg
@@ -807,7 +851,7 @@ theorem C17_mint_only_via_deposit_or_admin {s s' : State} {op : Op} (h : step s 
   | receive caller sender id rcp msgOk picked =>
     right; left
     exact ⟨caller, sender, id, rcp, msgOk, picked, rfl, (receive_ok_full h).2.1⟩
-  | mintTo caller recipient pay picked =>
+  | mintTo caller recipient pay w picked =>
     right; right; left
     simp only [step, adminMint] at h
     split at h
@@ -818,8 +862,10 @@ theorem C17_mint_only_via_deposit_or_admin {s s' : State} {op : Op} (h : step s 
         · exact e
         · exact absurd e hc
       subst this
-      exact ⟨recipient, pay, picked, rfl⟩
-  | mintFor caller id recipient pay =>
+      cases w with
+      | false => simp at h
+      | true => exact ⟨recipient, pay, picked, rfl⟩
+  | mintFor caller id recipient pay w =>
     right; right; right
     simp only [step, adminMint] at h
     split at h
@@ -830,23 +876,30 @@ theorem C17_mint_only_via_deposit_or_admin {s s' : State} {op : Op} (h : step s 
         · exact e
         · exact absurd e hc
       subst this
-      exact ⟨id, recipient, pay, rfl⟩
-  | setStart caller t =>
+      cases w with
+      | false => simp at h
+      | true => exact ⟨id, recipient, pay, rfl⟩
+  | setStart caller t w =>
     simp only [step] at h
     repeat' split at h
     all_goals first | cases h | skip
     all_goals simp at hchg
-  | setLimit caller n =>
+  | setLimit caller n w =>
     simp only [step] at h
     repeat' split at h
     all_goals first | cases h | skip
     all_goals simp at hchg
-  | purge caller =>
+  | purge caller w =>
     simp only [step] at h
-    split at h
-    · cases h; simp at hchg
-    · cases h
-  | burnRemaining caller =>
+    repeat' split at h
+    all_goals first | cases h | skip
+    all_goals simp at hchg
+  | burnRemaining caller w =>
+    simp only [step] at h
+    repeat' split at h
+    all_goals first | cases h | skip
+    all_goals simp at hchg
+  | noise w =>
     simp only [step] at h
     repeat' split at h
     all_goals first | cases h | skip
@@ -855,8 +908,8 @@ theorem C17_mint_only_via_deposit_or_admin {s s' : State} {op : Op} (h : step s 
 /-- the admin's airdrops (`MintTo` / `MintFor`) never touch the deposit ledger (they neither need nor consume
 credits), are reserved to the admin, and count towards the RECIPIENT's per-address counter — so an airdropped
 recipient may thereby reach its limit and be unable to deposit (`C17_limit_rejected`). -/
-theorem C17_admin_mint_frame {s s' : State} {caller recipient : Addr} {tokenId : Option Nat} {pay : Nat}
-    {picked : Option Nat} (h : adminMint s caller recipient tokenId pay picked = .ok s') :
+theorem C17_admin_mint_frame {s s' : State} {caller recipient : Addr} {tokenId : Option Nat} {w : Bool}
+    {picked : Option Nat} (h : adminMint s caller recipient tokenId w picked = .ok s') :
     caller = s.admin ∧ s'.ledger = s.ledger ∧ s'.mintCount recipient = s.mintCount recipient + 1 ∧
     s'.tgtNum = s.tgtNum + 1 := by
   unfold adminMint at h
@@ -910,7 +963,22 @@ theorem step_cases {s s' : State} {op : Op} (h : step s op = .ok s') :
     simp only [step] at h
     obtain ⟨_, _, rfl⟩ := srcTransfer_ok h
     exact Or.inl ⟨rfl, rfl, rfl⟩
-  | approve caller coll id spender =>
+  | approve caller coll id spender expires =>
+    simp only [step] at h
+    split at h
+    · cases h; exact Or.inl ⟨rfl, rfl, rfl⟩
+    · cases h
+  | revoke caller coll id spender =>
+    simp only [step] at h
+    split at h
+    · cases h; exact Or.inl ⟨rfl, rfl, rfl⟩
+    · cases h
+  | approveAll caller coll operator expires =>
+    simp only [step] at h
+    split at h
+    · cases h; exact Or.inl ⟨rfl, rfl, rfl⟩
+    · cases h
+  | revokeAll caller coll operator =>
     simp only [step] at h
     split at h
     · cases h; exact Or.inl ⟨rfl, rfl, rfl⟩
@@ -938,7 +1006,7 @@ theorem step_cases {s s' : State} {op : Op} (h : step s op = .ok s') :
       | ok res =>
         simp only [hr] at h
         exact Or.inr ⟨s, caller, sender, id, rcp, picked, res, rfl, rfl, rfl, rfl, rfl, hr, h⟩
-  | mintTo caller recipient pay picked =>
+  | mintTo caller recipient pay w picked =>
     simp only [step, adminMint] at h
     split at h
     · cases h
@@ -947,7 +1015,7 @@ theorem step_cases {s s' : State} {op : Op} (h : step s op = .ok s') :
       · split at h
         · cases h
         · obtain ⟨_, rfl⟩ := tgtMint_ok h; exact Or.inl ⟨rfl, rfl, rfl⟩
-  | mintFor caller id recipient pay =>
+  | mintFor caller id recipient pay w =>
     simp only [step, adminMint] at h
     split at h
     · cases h
@@ -956,22 +1024,27 @@ theorem step_cases {s s' : State} {op : Op} (h : step s op = .ok s') :
       · split at h
         · cases h
         · obtain ⟨_, rfl⟩ := tgtMint_ok h; exact Or.inl ⟨rfl, rfl, rfl⟩
-  | setStart caller t =>
+  | setStart caller t w =>
     simp only [step] at h
     repeat' split at h
     all_goals first | cases h | skip
     all_goals first | exact Or.inl ⟨rfl, rfl, rfl⟩ | skip
-  | setLimit caller n =>
+  | setLimit caller n w =>
     simp only [step] at h
     repeat' split at h
     all_goals first | cases h | skip
     all_goals first | exact Or.inl ⟨rfl, rfl, rfl⟩ | skip
-  | purge caller =>
+  | purge caller w =>
     simp only [step] at h
-    split at h
-    · cases h; exact Or.inl ⟨rfl, rfl, rfl⟩
-    · cases h
-  | burnRemaining caller =>
+    repeat' split at h
+    all_goals first | cases h | skip
+    all_goals first | exact Or.inl ⟨rfl, rfl, rfl⟩ | skip
+  | burnRemaining caller w =>
+    simp only [step] at h
+    repeat' split at h
+    all_goals first | cases h | skip
+    all_goals first | exact Or.inl ⟨rfl, rfl, rfl⟩ | skip
+  | noise w =>
     simp only [step] at h
     repeat' split at h
     all_goals first | cases h | skip
@@ -1111,6 +1184,323 @@ theorem C17_conservation (s0 : State) (h0 : ∀ r c, s0.ledger r c = 0) (ops : L
   simpa [run_required] using this
 
 
+/-! ### round 3: frames, the start time over histories, and what the literal text does NOT get -/
+
+/-- frame: only a deposit (`send` / `receive`) can change the ledger or the requirement vector. In particular the
+witnessed operations (`setStart`, `setLimit`, `purge`, `burnRemaining`, admin mints), the cw721 traffic on the source
+collections and everything outside the mechanism (`noise`: Shuffle, UpdateStartTradingTime, sudo, migrate, unknown
+message variants) leave every ledger entry alone. (For `noise` this is what the model ASSUMES; the harness validates it
+on the real contract with the monitors `ledger-changed-outside-deposit` / `ledger-query-differs`.) -/
+theorem C17_ledger_only_via_deposit {s s' : State} {op : Op} (h : step s op = .ok s') (hnd : depositOf op = none) :
+    s'.ledger = s.ledger ∧ s'.required = s.required := by
+  rcases step_cases h with ⟨_, hl, hr⟩ | ⟨s1, caller, sender, tid, rcp, picked, res, hd, _⟩
+  · exact ⟨hl, hr⟩
+  · rw [hnd] at hd; cases hd
+
+/-- an operation outside the mechanism changes nothing at all -/
+theorem C17_noise_frame {s s' : State} {w : Bool} (h : step s (.noise w) = .ok s') : s' = s := by
+  simp only [step] at h
+  split at h
+  · cases h
+  · cases h; rfl
+
+/-- the mechanism-only half of *"a user calling the receive hook directly is rejected"*: whoever calls the hook without
+being named in the requirement vector is rejected by `execute_receive_nft` itself (`InvalidCollection`) — no assumption
+about which addresses are contracts. (`C17_direct_receive_rejected` covers the remaining case — an ACCOUNT that was
+configured as a "required collection" — through the environment fact `caller ∉ s.colls`: the `Burn` message sent back to
+it cannot execute. That half is validated by the harness's `weird` cases only.) -/
+theorem C17_direct_receive_rejected_unrequired {s : State} {caller sender : Addr} {id : Nat} {rcp : Option Addr}
+    {msgOk : Bool} {picked : Option Nat} (hnot : caller ∉ s.required.map Prod.fst) :
+    ∃ e, step s (.receive caller sender id rcp msgOk picked) = .error e := by
+  cases h : step s (.receive caller sender id rcp msgOk picked) with
+  | error e => exact ⟨e, rfl⟩
+  | ok s' =>
+    obtain ⟨_, _, _, ⟨amt, hreq, _⟩, _⟩ := receive_ok_full h
+    rw [(requiredOf_none_iff _ _).mpr hnot] at hreq; cases hreq
+
+theorem recv_clock {s : State} {caller sender : Addr} {tid : Nat} {rcp : Option Addr} {picked : Option Nat}
+    {res : Recv} (h : executeReceiveNft s caller sender tid rcp picked = .ok res) :
+    res.st.now = s.now ∧ res.st.start = s.start := by
+  obtain ⟨_, _, amt, _, _, _, hcase⟩ := recv_ok h
+  rcases hcase with ⟨_, _, _, _, hst⟩ | ⟨_, _, hst⟩ <;> simp [hst]
+
+theorem runMsgs_clock {res : Recv} {s' : State} (h : runMsgs res = .ok s') :
+    s'.now = res.st.now ∧ s'.start = res.st.start := by
+  obtain ⟨s2, hmint, hb⟩ := runMsgs_ok h
+  obtain ⟨_, _, rfl⟩ := srcBurn_ok hb
+  rcases hmint with ⟨_, rfl⟩ | ⟨i, o, _, hm⟩
+  · exact ⟨rfl, rfl⟩
+  · obtain ⟨_, rfl⟩ := tgtMint_ok hm; exact ⟨rfl, rfl⟩
+
+/-- how a successful step moves the clock and the start time: the clock only by `setTime`, the start time only by a
+`setStart` issued strictly BEFORE the start time in force (`AlreadyStarted` otherwise) -/
+theorem step_clock {s s' : State} {op : Op} (h : step s op = .ok s') :
+    (s'.now = s.now ∨ ∃ t, op = .setTime t ∧ s'.now = t) ∧
+    (s'.start = s.start ∨ ∃ caller t, op = .setStart caller t true ∧ s.now < s.start ∧ s'.start = t) := by
+  cases op with
+  | setTime t => simp only [step] at h; cases h; exact ⟨Or.inr ⟨t, rfl, rfl⟩, Or.inl rfl⟩
+  | give coll id to =>
+    simp only [step] at h
+    split at h
+    · cases h; exact ⟨Or.inl rfl, Or.inl rfl⟩
+    · cases h
+  | transfer caller coll id to =>
+    simp only [step] at h
+    obtain ⟨_, _, rfl⟩ := srcTransfer_ok h
+    exact ⟨Or.inl rfl, Or.inl rfl⟩
+  | approve caller coll id spender expires =>
+    simp only [step] at h
+    split at h
+    · cases h; exact ⟨Or.inl rfl, Or.inl rfl⟩
+    · cases h
+  | revoke caller coll id spender =>
+    simp only [step] at h
+    split at h
+    · cases h; exact ⟨Or.inl rfl, Or.inl rfl⟩
+    · cases h
+  | approveAll caller coll operator expires =>
+    simp only [step] at h
+    split at h
+    · cases h; exact ⟨Or.inl rfl, Or.inl rfl⟩
+    · cases h
+  | revokeAll caller coll operator =>
+    simp only [step] at h
+    split at h
+    · cases h; exact ⟨Or.inl rfl, Or.inl rfl⟩
+    · cases h
+  | send caller coll id contract rcp msgOk picked =>
+    simp only [step] at h
+    cases ht : srcTransfer s caller coll id contract with
+    | error e => simp [ht] at h
+    | ok s1 =>
+      simp only [ht] at h
+      obtain ⟨_, _, hs1⟩ := srcTransfer_ok ht
+      split at h
+      · cases h
+      · cases hr : executeReceiveNft s1 coll caller id rcp picked with
+        | error e => simp [hr] at h
+        | ok res =>
+          simp only [hr] at h
+          obtain ⟨h1, h2⟩ := recv_clock hr
+          obtain ⟨h3, h4⟩ := runMsgs_clock h
+          refine ⟨Or.inl ?_, Or.inl ?_⟩
+          · rw [h3, h1, hs1]
+          · rw [h4, h2, hs1]
+  | receive caller sender id rcp msgOk picked =>
+    simp only [step] at h
+    split at h
+    · cases h
+    · cases hr : executeReceiveNft s caller sender id rcp picked with
+      | error e => simp [hr] at h
+      | ok res =>
+        simp only [hr] at h
+        obtain ⟨h1, h2⟩ := recv_clock hr
+        obtain ⟨h3, h4⟩ := runMsgs_clock h
+        exact ⟨Or.inl (by rw [h3, h1]), Or.inl (by rw [h4, h2])⟩
+  | mintTo caller recipient pay w picked =>
+    simp only [step, adminMint] at h
+    split at h
+    · cases h
+    · split at h
+      · cases h
+      · split at h
+        · cases h
+        · obtain ⟨_, rfl⟩ := tgtMint_ok h; exact ⟨Or.inl rfl, Or.inl rfl⟩
+  | mintFor caller id recipient pay w =>
+    simp only [step, adminMint] at h
+    split at h
+    · cases h
+    · split at h
+      · cases h
+      · split at h
+        · cases h
+        · obtain ⟨_, rfl⟩ := tgtMint_ok h; exact ⟨Or.inl rfl, Or.inl rfl⟩
+  | setStart caller t w =>
+    simp only [step] at h
+    split at h
+    · cases h
+    · rename_i hw
+      split at h
+      · cases h
+      · rename_i hlt
+        cases h
+        have : w = true := by cases w <;> simp_all
+        subst this
+        exact ⟨Or.inl rfl, Or.inr ⟨caller, t, rfl, by omega, rfl⟩⟩
+  | setLimit caller n w =>
+    simp only [step] at h
+    split at h
+    · cases h
+    · cases h; exact ⟨Or.inl rfl, Or.inl rfl⟩
+  | purge caller w =>
+    simp only [step] at h
+    split at h
+    · cases h
+    · cases h; exact ⟨Or.inl rfl, Or.inl rfl⟩
+  | burnRemaining caller w =>
+    simp only [step] at h
+    split at h
+    · cases h
+    · cases h; exact ⟨Or.inl rfl, Or.inl rfl⟩
+  | noise w =>
+    simp only [step] at h
+    split at h
+    · cases h
+    · cases h; exact ⟨Or.inl rfl, Or.inl rfl⟩
+
+/-- block time never runs backwards along the history (a fact about chains; cw-multi-test would allow otherwise) -/
+def clockMono : Nat → List Op → Prop
+  | _, [] => True
+  | now, .setTime t :: rest => now ≤ t ∧ clockMono t rest
+  | now, _ :: rest => clockMono now rest
+
+/-- deposits are open: strictly after the start time -/
+def Started (s : State) : Prop := s.start < s.now
+
+/-- one step under a forward-moving clock: once deposits are open they stay open and the start time is frozen -/
+theorem step'_started {s : State} {op : Op} (hs : Started s) (hm : clockMono s.now [op]) :
+    (step' s op).start = s.start ∧ Started (step' s op) := by
+  unfold step'
+  cases h : step s op with
+  | error e => exact ⟨rfl, hs⟩
+  | ok s' =>
+    obtain ⟨hnow, hstart⟩ := step_clock h
+    have hst : s'.start = s.start := by
+      rcases hstart with e | ⟨_, _, _, hlt, _⟩
+      · exact e
+      · unfold Started at hs; omega
+    refine ⟨hst, ?_⟩
+    unfold Started at *
+    rcases hnow with e | ⟨t, rfl, e⟩
+    · rw [hst, e]; exact hs
+    · simp only [clockMono] at hm
+      rw [hst, e]; omega
+
+theorem step'_now (s : State) (op : Op) :
+    (step' s op).now = (match op with | .setTime t => t | _ => s.now) := by
+  unfold step'
+  cases h : step s op with
+  | error e =>
+    cases op <;> simp_all [step]
+  | ok s' =>
+    obtain ⟨hnow, _⟩ := step_clock h
+    rcases hnow with e | ⟨t, rfl, e⟩
+    · cases op with
+      | setTime t => simp only [step] at h; cases h; rfl
+      | _ => simpa using e
+    · simpa using e
+
+theorem clockMono_cons {now : Nat} {op : Op} {rest : List Op} (h : clockMono now (op :: rest)) (s : State)
+    (hn : s.now = now) : clockMono s.now [op] ∧ clockMono (step' s op).now rest := by
+  rw [step'_now, hn]
+  cases op <;> simp_all [clockMono]
+
+/-- *"strictly after the start time"*, over histories: once the start time has passed, NO later operation by anybody
+(in particular no `UpdateStartTime`) moves it, and deposits stay open — for every history whose clock runs forward. -/
+theorem C17_start_frozen_once_started (s : State) (hs : s.start < s.now) (ops : List Op) (hm : clockMono s.now ops) :
+    (run s ops).start = s.start ∧ (run s ops).start < (run s ops).now := by
+  induction ops generalizing s with
+  | nil => exact ⟨rfl, hs⟩
+  | cons op rest ih =>
+    obtain ⟨h1, h2⟩ := clockMono_cons hm s rfl
+    obtain ⟨hst, hstarted⟩ := step'_started (s := s) hs h1
+    simp only [run, List.foldl_cons]
+    have := ih (step' s op) hstarted h2
+    simp only [run] at this
+    exact ⟨by rw [this.1, hst], this.2⟩
+
+/-- a pending credit exists only once deposits are open -/
+def CreditsAfterStart (s : State) : Prop := (∃ r c, 0 < s.ledger r c) → Started s
+
+theorem step'_creditsAfterStart {s : State} {op : Op} (hi : CreditsAfterStart s) (hm : clockMono s.now [op]) :
+    CreditsAfterStart (step' s op) := by
+  by_cases hs : Started s
+  · intro _; exact (step'_started hs hm).2
+  · have hz : ∀ r c, s.ledger r c = 0 := by
+      intro r c
+      by_cases h0 : 0 < s.ledger r c
+      · exact absurd (hi ⟨r, c, h0⟩) hs
+      · omega
+    unfold step'
+    cases h : step s op with
+    | error e => exact hi
+    | ok s' =>
+      intro ⟨r, c, hpos⟩
+      exfalso
+      cases hd : depositOf op with
+      | none =>
+        rw [(C17_ledger_only_via_deposit h hd).1, hz] at hpos
+        omega
+      | some rc =>
+        cases op <;> simp [depositOf] at hd
+        · exact hs (send_ok_full h).1
+        · exact hs (receive_ok_full h).1
+
+/-- **every credited ledger entry was credited strictly after the start time in force** — for all histories (forward
+clock) of a minter that starts with an empty ledger: whenever some `ledger r c > 0`, the clock is past the start time. -/
+theorem C17_credit_after_start (s0 : State) (h0 : ∀ r c, s0.ledger r c = 0) (ops : List Op)
+    (hm : clockMono s0.now ops) (r c : Addr) (hpos : 0 < (run s0 ops).ledger r c) :
+    (run s0 ops).start < (run s0 ops).now := by
+  have key : ∀ (ops : List Op) (s : State), CreditsAfterStart s → clockMono s.now ops → CreditsAfterStart (run s ops) := by
+    intro ops
+    induction ops with
+    | nil => intro s h _; exact h
+    | cons op rest ih =>
+      intro s h hm
+      obtain ⟨h1, h2⟩ := clockMono_cons hm s rfl
+      simp only [run, List.foldl_cons]
+      exact ih (step' s op) (step'_creditsAfterStart h h1) h2
+  have hi : CreditsAfterStart s0 := by
+    intro ⟨r, c, h⟩; rw [h0] at h; omega
+  exact key ops s0 hi hm ⟨r, c, hpos⟩
+
+/-- … and from then on the start time can no longer be moved by any operation: a credit is never put "before the start"
+after the fact. -/
+theorem C17_start_frozen_after_first_credit (s0 : State) (h0 : ∀ r c, s0.ledger r c = 0) (ops : List Op)
+    (hm : clockMono s0.now ops) (r c : Addr) (hpos : 0 < (run s0 ops).ledger r c) (more : List Op)
+    (hm2 : clockMono (run s0 ops).now more) :
+    (run (run s0 ops) more).start = (run s0 ops).start ∧
+    (run (run s0 ops) more).start < (run (run s0 ops) more).now :=
+  C17_start_frozen_once_started _ (C17_credit_after_start s0 h0 ops hm r c hpos) more hm2
+
+/- FULL STATEMENT of the first clause, read literally: *"the minter mints a new token to a recipient EXACTLY WHEN …
+that recipient has been credited the required number of tokens from every required collection"*, i.e.
+  `∀ s op s', step s op = .ok s' → (s'.tgtNum = s.tgtNum + 1 ↔ ∃ r c, depositOf op = some (r, c) ∧ Fulfilled s r c)`.
+The unchanged code contradicts it: the admin's `MintTo` / `MintFor` (airdrops) mint to any recipient without any deposit
+(`C17_mint_exactly_when_counterexample`). Proved: the statement for every operation that is not such an airdrop. -/
+theorem C17_mint_exactly_when_partial {s s' : State} {op : Op} (h : step s op = .ok s')
+    (hna : ∀ r p w k, op ≠ .mintTo s.admin r p w k) (hna' : ∀ i r p w, op ≠ .mintFor s.admin i r p w) :
+    (s'.tgtNum = s.tgtNum + 1 ↔ ∃ r c, depositOf op = some (r, c) ∧ Fulfilled s r c) ∧
+    (s'.tgtNum = s.tgtNum ∨ s'.tgtNum = s.tgtNum + 1) := by
+  rcases step_cases h with ⟨hd, _, _⟩ | ⟨s1, caller, sender, tid, rcp, picked, res, hd, hr1, hl1, ht1, _, hr, hm⟩
+  · have hsame : s'.tgtNum = s.tgtNum := by
+      by_cases e : s'.tgtNum = s.tgtNum
+      · exact e
+      · rcases C17_mint_only_via_deposit_or_admin h (Or.inl e) with ⟨_, _, _, _, _, _, _, rfl, _⟩ |
+          ⟨_, _, _, _, _, _, rfl, _⟩ | ⟨r, p, k, rfl⟩ | ⟨i, r, p, rfl⟩
+        · simp [depositOf] at hd
+        · simp [depositOf] at hd
+        · exact absurd rfl (hna r p true k)
+        · exact absurd rfl (hna' i r p true)
+    refine ⟨⟨fun e => by omega, fun ⟨r, c, hd', _⟩ => by rw [hd] at hd'; cases hd'⟩, Or.inl hsame⟩
+  · obtain ⟨_, _, _, htn⟩ := runMsgs_frame hm
+    obtain ⟨_, _, amt, _, _, _, hcase⟩ := recv_ok hr
+    have hrow : creditRow s1 (rcp.getD sender) caller = creditRow s (rcp.getD sender) caller := by
+      unfold creditRow; rw [hl1]
+    rcases hcase with ⟨hall, tok, _, hmint, hst⟩ | ⟨hall, hmint, hst⟩
+    · have hf : Fulfilled s (rcp.getD sender) caller := by
+        have := (allReceived_iff _ _).mp hall
+        rw [hr1, hrow] at this; exact this
+      have : s'.tgtNum = s.tgtNum + 1 := by rw [htn, hmint]; simp [hst, ht1]
+      exact ⟨⟨fun _ => ⟨_, _, hd, hf⟩, fun _ => this⟩, Or.inr this⟩
+    · have hnf : ¬ Fulfilled s (rcp.getD sender) caller := by
+        have := (allReceived_false_iff _ _).mp hall
+        rw [hr1, hrow] at this; exact this
+      have : s'.tgtNum = s.tgtNum := by rw [htn, hmint]; simp [hst, ht1]
+      refine ⟨⟨fun e => by omega, fun ⟨r, c, hd', hf⟩ => ?_⟩, Or.inl this⟩
+      rw [hd] at hd'; cases hd'
+      exact absurd hf hnf
+
 /-! ## non-vacuity: concrete runs on which the hypotheses above are satisfiable -/
 
 namespace C17Examples
@@ -1154,6 +1544,42 @@ example : (step (run s0 setup) (.send 20 1006 1 1010 none true none)).isOk = fal
 /-- the ghost bookkeeping on the same run: 2 tokens of 1004 and 1 of 1002 were burned for 20, one mint -/
 example : let g := (runG (s0, ⟨fun _ _ => 0, fun _ => 0⟩) (setup ++ deposits ++ [.send 20 1004 2 1010 none true (some 2)])).2
     g.credited 20 1004 = 2 ∧ g.credited 20 1002 = 1 ∧ g.dmints 20 = 1 := by decide
+
+/-- the admin's airdrop: one token more in the minter's collection, owned by 20, although NOBODY was ever credited
+anything (the whole ledger is empty) — the literal "mints exactly when … credited" does not hold for `MintTo`.
+Replayed on the real contracts by the harness (`airdrop0` / `airdrop1` cases, class `floor:airdrop:…`). -/
+theorem C17_mint_exactly_when_counterexample :
+    let s := run s0 (setup)
+    let s' := step' s (.mintTo 10 20 0 true (some 1))
+    s'.tgtNum = s.tgtNum + 1 ∧ s'.tgtOwner 1 = some 20 ∧
+    s.ledger 20 1002 = 0 ∧ s.ledger 20 1004 = 0 ∧ ¬ Fulfilled s 20 1004 ∧ depositOf (.mintTo 10 20 0 true (some 1)) = none := by
+  refine ⟨by decide, by decide, by decide, by decide, ?_, rfl⟩
+  intro hf
+  have := hf (1002, 1) (by simp [run_required, s0, init])
+  revert this; decide
+
+/- FULL STATEMENT of the reset clause, read literally: *"the recipient's deposit ledger is reset after EACH mint"*, i.e.
+after any operation that mints to `r`, `∀ c, ledger r c = 0`. Proved for deposit-triggered mints (`C17_reset`,
+`C17_reset_hook`); the admin's airdrops by design neither need nor consume credits (`C17_admin_mint_frame`), so: -/
+/-- an airdrop to 20 while 20 holds a partial ledger (2 of the 3 required tokens): a token IS minted to 20 and the ledger
+is NOT reset. -/
+theorem C17_reset_after_each_mint_counterexample :
+    let s := run s0 (setup ++ deposits)
+    let s' := step' s (.mintTo 10 20 0 true (some 3))
+    s'.tgtNum = s.tgtNum + 1 ∧ s'.tgtOwner 3 = some 20 ∧ s'.ledger 20 1004 = 1 ∧ s'.ledger 20 1002 = 1 := by
+  decide
+
+/-- `clockMono`, `Started` and a positive ledger entry are jointly satisfiable (hypotheses of
+`C17_credit_after_start` / `C17_start_frozen_after_first_credit`); afterwards the admin's `setStart` is refused -/
+example : clockMono s0.now (setup ++ deposits) ∧ 0 < (run s0 (setup ++ deposits)).ledger 20 1004 ∧
+    (step (run s0 (setup ++ deposits)) (.setStart 10 500 true)).isOk = false ∧
+    (step s0 (.setStart 10 500 true)).isOk = true := by
+  refine ⟨by simp [clockMono, setup, deposits, s0, init], by decide, by decide, by decide⟩
+
+/-- an operator (`ApproveAll`) may send the owner's token — credited to the operator; an expired grant does not count -/
+example : let s := run s0 (setup ++ [.approveAll 20 1004 21 (some 200)])
+    (run s [.send 21 1004 1 1010 none true none]).ledger 21 1004 = 1 ∧
+    (step (run s [.setTime 200]) (.send 21 1004 1 1010 none true none)).isOk = false := by decide
 
 end C17Examples
 
